@@ -34,7 +34,8 @@ fn text_ok(s: &str, path: bool) -> bool {
     if path && !s.starts_with('/') {
         return false;
     }
-    s.chars().all(|c| c.is_ascii_alphanumeric() || matches!(c, '/' | '-' | '_' | '.' | '@'))
+    // ':' (a port) only in hosts: in a path it would be subject to URL normalisation
+    s.chars().all(|c| c.is_ascii_alphanumeric() || matches!(c, '/' | '-' | '_' | '.' | '@') || (c == ':' && !path))
 }
 
 fn plain_ok(s: &str) -> bool {
@@ -71,16 +72,13 @@ fn ip_num(ip: &IpAddr) -> (u32, u128) {
     }
 }
 
-/// "10.0.0.0/8"; `None` if the description is not a well-formed network (host part must be zero).
+/// "10.0.0.0/8".  The text is written as described even if it is not a network (prefix longer than the
+/// address, host part not zero): `Rule::route_ips` drops such a range, and so does the model
+/// (`Rio.Router.J.cidrOf`).
 fn cidr_string(v: &Value) -> Option<String> {
     let ip = ip_of(v.get("ip")?)?;
-    let bits = v.get("bits")?.as_u64()? as u32;
-    let (w, n) = ip_num(&ip);
-    if bits > w {
-        return None;
-    }
-    let host_mask: u128 = if bits == w { 0 } else if w - bits == 128 { u128::MAX } else { (1u128 << (w - bits)) - 1 };
-    if n & host_mask != 0 {
+    let bits = v.get("bits")?.as_u64()?;
+    if bits > 255 {
         return None;
     }
     Some(format!("{}/{}", ip, bits))
@@ -88,6 +86,11 @@ fn cidr_string(v: &Value) -> Option<String> {
 
 /// epoch seconds -> "YYYY-MM-DDTHH:MM:SS+00:00" (civil-from-days, proleptic Gregorian)
 pub fn rfc3339(t: u64) -> String {
+    format!("{}+00:00", civil(t))
+}
+
+/// epoch seconds -> "YYYY-MM-DDTHH:MM:SS" (civil-from-days, proleptic Gregorian)
+fn civil(t: u64) -> String {
     let days = (t / 86400) as i64;
     let secs = t % 86400;
     let z = days + 719468;
@@ -100,7 +103,116 @@ pub fn rfc3339(t: u64) -> String {
     let d = doy - (153 * mp + 2) / 5 + 1;
     let m = if mp < 10 { mp + 3 } else { mp - 9 };
     let y = if m <= 2 { y + 1 } else { y };
-    format!("{:04}-{:02}-{:02}T{:02}:{:02}:{:02}+00:00", y, m, d, secs / 3600, (secs / 60) % 60, secs % 60)
+    format!("{:04}-{:02}-{:02}T{:02}:{:02}:{:02}", y, m, d, secs / 3600, (secs / 60) % 60, secs % 60)
+}
+
+fn fraction(ns: u64) -> String {
+    if ns == 0 {
+        return String::new();
+    }
+    let digits = format!("{:09}", ns);
+    format!(".{}", digits.trim_end_matches('0'))
+}
+
+/// The UTC instant `t` (+ `ns` nanoseconds) written as the local time of the zone `off` minutes east of UTC:
+/// `2020-01-01T14:00:00+02:00` for t = 12:00:00Z, off = 120.  `None` if the local time is before the epoch.
+pub fn rfc3339_at(t: u64, off: i64, ns: u64, z: bool) -> Option<String> {
+    if off.abs() >= 24 * 60 || ns >= 1_000_000_000 || (z && off != 0) {
+        return None;
+    }
+    let local = t as i64 + off * 60;
+    if local < 0 {
+        return None;
+    }
+    let suffix = if z { "Z".to_string() } else { format!("{}{:02}:{:02}", if off < 0 { '-' } else { '+' }, off.abs() / 60, off.abs() % 60) };
+    Some(format!("{}{}{}", civil(local as u64), fraction(ns), suffix))
+}
+
+/// Texts no chrono parser accepts as a date-time / a time of day / a week day.
+pub const BAD_DATES: &[&str] = &["", "tomorrow", "2020-01-01", "2020-13-01T00:00:00Z", "2020-01-01T25:00:00+00:00", "1577836800"];
+pub const BAD_TIMES: &[&str] = &["", "noon", "25:00:00", "14", "14:60"];
+pub const BAD_WEEKDAY: &str = "Funday";
+
+/// (UTC second, offset minutes, nanoseconds) of a bound that is a number or a `{"t",..}` object
+pub fn bound_parts(x: &Value) -> Option<(u64, i64, u64)> {
+    match x {
+        Value::Number(_) => Some((x.as_u64()?, 0, 0)),
+        Value::Object(o) if o.contains_key("t") => Some((
+            o.get("t")?.as_u64()?,
+            o.get("off").and_then(|v| v.as_i64()).unwrap_or(0),
+            o.get("ns").and_then(|v| v.as_u64()).unwrap_or(0),
+        )),
+        _ => None,
+    }
+}
+
+/// The text of one bound of a `datetime` (`time == false`) or `time` window.
+/// bound: null | nat | {"t":nat, "off":int?, "ns":nat?, "z":bool?, "hm":bool?} | {"bad":text}
+fn bound_text(x: &Value, time: bool) -> Result<Value, ()> {
+    let max_excl: u64 = if time { 86_400 } else { 4_000_000_000 };
+    match x {
+        Value::Null => Ok(Value::Null),
+        Value::Number(_) => {
+            let n = x.as_u64().ok_or(())?;
+            if n >= max_excl {
+                return Err(());
+            }
+            Ok(Value::String(if time { hms(n) } else { rfc3339(n) }))
+        }
+        Value::Object(o) => {
+            if let Some(b) = o.get("bad") {
+                // only texts known to be rejected: the model treats the bound as absent
+                let b = b.as_str().ok_or(())?;
+                let known = if time { BAD_TIMES } else { BAD_DATES };
+                if o.len() != 1 || !known.contains(&b) {
+                    return Err(());
+                }
+                return Ok(json!(b));
+            }
+            for k in o.keys() {
+                if !["t", "off", "ns", "z", "hm"].contains(&k.as_str()) {
+                    return Err(());
+                }
+            }
+            let t = o.get("t").and_then(|v| v.as_u64()).ok_or(())?;
+            if t >= max_excl {
+                return Err(());
+            }
+            let ns = match o.get("ns") {
+                None => 0,
+                Some(v) => v.as_u64().ok_or(())?,
+            };
+            let flag = |k: &str| match o.get(k) {
+                None => Ok(false),
+                Some(v) => v.as_bool().ok_or(()),
+            };
+            if ns >= 1_000_000_000 {
+                return Err(());
+            }
+            if time {
+                if o.contains_key("off") || o.contains_key("z") {
+                    return Err(());
+                }
+                if flag("hm")? {
+                    if t % 60 != 0 || ns != 0 {
+                        return Err(());
+                    }
+                    return Ok(json!(format!("{:02}:{:02}", t / 3600, (t / 60) % 60)));
+                }
+                Ok(json!(format!("{}{}", hms(t), fraction(ns))))
+            } else {
+                if o.contains_key("hm") {
+                    return Err(());
+                }
+                let off = match o.get("off") {
+                    None => 0,
+                    Some(v) => v.as_i64().ok_or(())?,
+                };
+                rfc3339_at(t, off, ns, flag("z")?).map(Value::String).ok_or(())
+            }
+        }
+        _ => Err(()),
+    }
 }
 
 fn hms(t: u64) -> String {
@@ -108,6 +220,21 @@ fn hms(t: u64) -> String {
 }
 
 const WEEKDAYS: [&str; 7] = ["Monday", "Tuesday", "Wednesday", "Thursday", "Friday", "Saturday", "Sunday"];
+
+/// the spellings of a week day chrono's `Weekday::from_str` accepts (long or three-letter form, any case)
+pub const WEEKDAY_STYLES: u64 = 6;
+fn weekday_text(n: usize, style: u64) -> Option<String> {
+    let long = WEEKDAYS[n];
+    Some(match style {
+        0 => long.to_string(),
+        1 => long.to_lowercase(),
+        2 => long.to_uppercase(),
+        3 => long[..3].to_string(),
+        4 => long[..3].to_lowercase(),
+        5 => long.chars().enumerate().map(|(i, c)| if i % 2 == 0 { c.to_ascii_lowercase() } else { c.to_ascii_uppercase() }).collect(),
+        _ => return None,
+    })
+}
 pub const HEADER_KINDS: [&str; 9] =
     ["is_defined", "is_not_defined", "is_equals", "is_not_equal_to", "contains", "does_not_contain", "ends_with", "starts_with", "match_regex"];
 
@@ -119,7 +246,7 @@ fn opt_str(v: &Value, k: &str) -> Result<Option<String>, ()> {
     }
 }
 
-fn ranges(v: &Value, k: &str, max_excl: u64, fmt: &dyn Fn(u64) -> String) -> Result<Option<Value>, ()> {
+fn ranges(v: &Value, k: &str, time: bool) -> Result<Option<Value>, ()> {
     match v.get(k) {
         None | Some(Value::Null) => Ok(None),
         Some(Value::Array(a)) => {
@@ -131,16 +258,7 @@ fn ranges(v: &Value, k: &str, max_excl: u64, fmt: &dyn Fn(u64) -> String) -> Res
                 }
                 let mut pair = Vec::new();
                 for x in r {
-                    match x {
-                        Value::Null => pair.push(Value::Null),
-                        _ => {
-                            let n = x.as_u64().ok_or(())?;
-                            if n >= max_excl {
-                                return Err(());
-                            }
-                            pair.push(Value::String(fmt(n)));
-                        }
-                    }
+                    pair.push(bound_text(x, time)?);
                 }
                 out.push(Value::Array(pair));
             }
@@ -244,22 +362,31 @@ pub fn rule_json(d: &Value, extra: Option<&Value>) -> Option<Value> {
         }
         _ => return None,
     }
-    if let Some(v) = ranges(d, "datetime", 4_000_000_000, &rfc3339).ok()? {
+    if let Some(v) = ranges(d, "datetime", false).ok()? {
         source.insert("datetime".into(), v);
     }
-    if let Some(v) = ranges(d, "time", 86400, &hms).ok()? {
+    if let Some(v) = ranges(d, "time", true).ok()? {
         source.insert("time".into(), v);
     }
+    let wdstyle = match d.get("wdstyle") {
+        None | Some(Value::Null) => 0,
+        Some(v) => v.as_u64()?,
+    };
     match d.get("weekdays") {
         None | Some(Value::Null) => {}
         Some(Value::Array(a)) => {
             let mut out = Vec::new();
             for w in a {
+                if w.is_null() {
+                    // a text the parser rejects: dropped by `RouteWeekday::from_weekdays` (and by the model)
+                    out.push(json!(BAD_WEEKDAY));
+                    continue;
+                }
                 let n = w.as_u64()? as usize;
                 if n >= 7 {
                     return None;
                 }
-                out.push(json!(WEEKDAYS[n]));
+                out.push(json!(weekday_text(n, wdstyle)?));
             }
             source.insert("weekdays".into(), Value::Array(out));
         }
@@ -322,7 +449,12 @@ pub fn request_of(config: &RouterConfig, d: &Value) -> Option<Request> {
             if t >= 4_000_000_000 {
                 return None;
             }
-            request.set_created_at(Some(rfc3339(t)));
+            // "atoff": the zone (minutes east of UTC) the instant is written in; the model does not see it
+            let off = match d.get("atoff") {
+                None | Some(Value::Null) => 0,
+                Some(o) => o.as_i64()?,
+            };
+            request.set_created_at(Some(rfc3339_at(t, off, 0, false)?));
             request.created_at?;
         }
     }
@@ -335,12 +467,15 @@ pub fn request_of(config: &RouterConfig, d: &Value) -> Option<Request> {
 
 const SCHEMES: &[&str] = &["http", "https", ""];
 // upper-case letters also in the LITERAL part of marker patterns: under the ignore-case flags the
-// regex trees must match them case-insensitively (and keep doing so after having been emptied)
+// regex trees must match them case-insensitively (and keep doing so after having been emptied).
+// Hosts with a port, a trailing dot, punycode labels: the library compares host texts as they are.
 const HOSTS: &[&str] = &[
     "a.com", "A.com", "b.com", "", "www.a.com", "@l.com", "@s.a.com", "a@d.com", "@x", "shop-@d.a.com", "A@d.com", "Shop-@d.A.com", "@l.COM", "B.com",
+    "a.com:8080", "a.com.", "xn--bcher-kva.de", "XN--Bcher-KVA.de", "a.com:@d", "@l.com:80", "A.COM:8080", "@l.com.",
 ];
 const REQ_HOSTS: &[&str] = &[
     "a.com", "A.com", "b.com", "www.a.com", "x.com", "abc.com", "w.a.com", "a1.com", "a12.com", "shop-7.a.com", "SHOP-7.A.COM", "", "A1.com", "abc.COM", "B.COM",
+    "a.com:8080", "A.COM:8080", "a.com:80", "a.com.", "A.com.", "abc.com:80", "abc.com.", "xn--bcher-kva.de", "XN--BCHER-KVA.DE", "a.com:", "a.com..",
 ];
 const PATHS: &[&str] = &[
     "/", "/a", "/A", "/a/b", "/a/@d", "/a/@l", "/a/@s", "/a/@s/c", "/a/@d/c", "/@x", "/a@x", "/b/@d-@l", "/a/b/c", "/a/1", "/a.b", "/x_y", "/A/@d", "/A/B", "/Ab@x",
@@ -350,15 +485,183 @@ const REQ_PATHS: &[&str] = &[
     "/", "/a", "/A", "/a/b", "/a/1", "/a/12", "/a/x", "/a/B", "/a/1/c", "/a/b/c", "/b/1-x", "/b/1-", "/a.b", "/x_y", "/zzz", "/a/", "/A/1", "/A/B", "/AB", "/abq",
     "/B/1-x", "/a/x/C",
 ];
-const METHODS: &[&str] = &["GET", "POST", "PUT", "get", "DELETE"];
-const HNAMES: &[&str] = &["X-A", "x-a", "X-B", "Accept"];
-const HVALUES: &[&str] = &["", "v", "V", "val", "value", "al", "x", "v-@d", "V-@d", "@l"];
-const REQ_HVALUES: &[&str] = &["", "v", "V", "val", "value", "VALUE", "x", "v-1", "V-1", "xv-12y", "abc"];
+// method names are compared as they are (no case folding anywhere)
+const METHODS: &[&str] = &["GET", "POST", "PUT", "get", "DELETE", "Get", "post", "gEt"];
+const HNAMES: &[&str] = &["X-A", "x-a", "X-B", "Accept", "ACCEPT", "x-B"];
+const HVALUES: &[&str] = &["", "v", "V", "val", "value", "al", "x", "v-@d", "V-@d", "@l", "v ", "val  ", " v"];
+const REQ_HVALUES: &[&str] = &["", "v", "V", "val", "value", "VALUE", "x", "v-1", "V-1", "xv-12y", "abc", "v ", "val  ", " v", "V "];
 
 // instants around which windows are built (2020-01-01T00:00:00Z is a Wednesday)
 const T0: u64 = 1_577_836_800;
 const INSTANTS: &[u64] = &[T0 - 1, T0, T0 + 1, T0 + 52_200, T0 + 86_399, T0 + 86_400, T0 + 14 * 86_400, T0 + 7 * 86_400 - 1, T0 - 86_400];
-const TIMES: &[u64] = &[0, 1, 52_199, 52_200, 52_201, 54_000, 86_399];
+const TIMES: &[u64] = &[0, 1, 52_199, 52_200, 52_201, 54_000, 86_399, 60, 86_340];
+// zones (minutes east of UTC) in which rule bounds and request instants are WRITTEN; the windows are compared in UTC
+const OFFSETS: &[i64] = &[120, -330, 840, 0, -720, 60, 345, -1];
+const FRACTIONS: &[u64] = &[500_000_000, 1, 999_999_999, 250_000_000];
+
+// ------------------------------------------------------------------------------------------------
+// diff-directed search hints (rio_harness::hints): strings / numbers mentioned by the lines of the library
+// that differ from the committed baseline.  Empty on the unchanged tree: then no generator below draws a
+// single extra random number, the case stream is the usual one.
+// ------------------------------------------------------------------------------------------------
+
+static HINTS: std::sync::OnceLock<rio_harness::Hints> = std::sync::OnceLock::new();
+static HINT_LEVEL: std::sync::atomic::AtomicU8 = std::sync::atomic::AtomicU8::new(1);
+
+pub fn the_hints() -> &'static rio_harness::Hints {
+    HINTS.get_or_init(rio_harness::hints)
+}
+
+/// 0: ignore the hints, 1: use them now and then, 2: use them at most places
+pub fn set_hint_level(level: u8) {
+    HINT_LEVEL.store(level, std::sync::atomic::Ordering::Relaxed);
+}
+
+fn hint_on(rng: &mut Prng) -> bool {
+    if the_hints().is_empty() {
+        return false;
+    }
+    match HINT_LEVEL.load(std::sync::atomic::Ordering::Relaxed) {
+        0 => false,
+        1 => rng.chance(1, 6),
+        _ => rng.chance(3, 5),
+    }
+}
+
+#[derive(Clone, Copy, PartialEq)]
+pub enum Place {
+    Host,
+    Path,
+    Plain,
+    Id,
+}
+
+fn swapcase(s: &str) -> String {
+    s.chars().map(|c| if c.is_ascii_lowercase() { c.to_ascii_uppercase() } else { c.to_ascii_lowercase() }).collect()
+}
+
+/// The hinted strings (as they are, upper-, lower-, swap-cased) restricted to the alphabet of a place.
+pub fn hint_texts(place: Place) -> Vec<String> {
+    let mut out: Vec<String> = Vec::new();
+    for s in &the_hints().strs {
+        for v in [s.clone(), s.to_uppercase(), s.to_lowercase(), swapcase(s)] {
+            let t: String = v
+                .chars()
+                .filter(|c| match place {
+                    Place::Host => c.is_ascii_alphanumeric() || matches!(c, '-' | '_' | '.' | ':'),
+                    Place::Path => c.is_ascii_alphanumeric() || matches!(c, '-' | '_' | '.' | '/'),
+                    Place::Plain => c.is_ascii_alphanumeric() || matches!(c, '-' | '_' | '.' | ' ' | '/' | '='),
+                    Place::Id => c.is_ascii_alphanumeric() || *c == '-',
+                })
+                .collect();
+            if !t.is_empty() && t.len() <= 300 && !out.contains(&t) {
+                out.push(t);
+            }
+        }
+    }
+    // a literal of every hinted length
+    if place != Place::Id {
+        for k in the_hints().sizes(300) {
+            let t = "a".repeat(k);
+            if !out.contains(&t) {
+                out.push(t);
+            }
+        }
+    }
+    out
+}
+
+/// A text of the pool, or (when hints are on) a hinted text placed where the pool has its literals.
+fn pick_text(rng: &mut Prng, pool: &[&str], place: Place) -> String {
+    if hint_on(rng) {
+        let ts = hint_texts(place);
+        if !ts.is_empty() {
+            let t = rng.pick(&ts).clone();
+            return match place {
+                Place::Host => match rng.below(5) {
+                    0 => t,
+                    1 => format!("{t}.com"),
+                    2 => format!("a.{t}"),
+                    3 => format!("a.com{t}"),
+                    _ => format!("@l.{t}"),
+                },
+                Place::Path => {
+                    let t = t.trim_start_matches('/').to_string();
+                    match rng.below(5) {
+                        0 => format!("/{t}"),
+                        1 => format!("/a/{t}"),
+                        2 => format!("/a{t}"),
+                        3 => format!("/{t}/@d"),
+                        _ => format!("/@s/{t}"),
+                    }
+                }
+                Place::Plain => match rng.below(4) {
+                    0 | 1 => t,
+                    2 => format!("v{t}"),
+                    _ => format!("{t}v"),
+                },
+                Place::Id => t,
+            };
+        }
+    }
+    rng.pick(pool).to_string()
+}
+
+/// the zones of `OFFSETS`, or a hinted one: "+02:00" / "-0530" among the strings, a number of minutes
+fn pick_offset(rng: &mut Prng) -> i64 {
+    if hint_on(rng) {
+        let mut offs: Vec<i64> = Vec::new();
+        for s in &the_hints().strs {
+            let b = s.as_bytes();
+            if (b.len() == 6 || b.len() == 5) && (b[0] == b'+' || b[0] == b'-') {
+                let digits: String = s[1..].chars().filter(|c| c.is_ascii_digit()).collect();
+                if digits.len() == 4 {
+                    let m = digits[..2].parse::<i64>().unwrap() * 60 + digits[2..].parse::<i64>().unwrap();
+                    if m < 24 * 60 {
+                        offs.push(if b[0] == b'-' { -m } else { m });
+                    }
+                }
+            }
+        }
+        for n in &the_hints().nums {
+            for d in [-1i64, 0, 1] {
+                let m = *n as i64 + d;
+                if m > 0 && m < 24 * 60 {
+                    offs.extend([m, -m]);
+                }
+                // a number of seconds (3600, 86400 …)
+                let m = (*n as i64 + d * 60) / 60;
+                if m > 0 && m < 24 * 60 {
+                    offs.extend([m, -m]);
+                }
+            }
+        }
+        if !offs.is_empty() {
+            return *rng.pick(&offs);
+        }
+    }
+    *rng.pick(OFFSETS)
+}
+
+/// a hinted number below `max_excl` (also its neighbours), if hints are on
+fn hint_num(rng: &mut Prng, max_excl: u64) -> Option<u64> {
+    if !hint_on(rng) {
+        return None;
+    }
+    let mut c: Vec<u64> = Vec::new();
+    for n in &the_hints().nums {
+        for v in [n.saturating_sub(1), *n, n + 1] {
+            if v < max_excl {
+                c.push(v);
+            }
+        }
+    }
+    if c.is_empty() {
+        None
+    } else {
+        Some(*rng.pick(&c))
+    }
+}
 
 pub fn gen_cfg(rng: &mut Prng) -> Value {
     json!({"ihc": rng.chance(1, 2), "ihdc": rng.chance(1, 2), "ipc": rng.chance(1, 2), "any": rng.chance(1, 2)})
